@@ -65,8 +65,8 @@ CHECKS = {
         design_ref="5/C13, 2.5", note="Trusted base: rustc's overflow checks and the crate's own debug_assert!s as the monitors; the structure-aware generators reach only what they construct. No proof of panic freedom."),
     "C14": dict(
         technique="compiler coverage instrumentation (SanitizerCoverage edges + load/store addresses) with an online trace-equality monitor; valgrind memcheck secret-taint; callgrind profile equality",
-        text="dudect_keygen_sign_with_rng and each secret-handling kernel (via verif_hooks) are run in SanitizerCoverage-instrumented optimised builds; the complete edge sequence and load/store address sequence are hashed per run and must be identical for every RNG output / in-domain input (first divergence is located and symbolised when not). The pipeline inputs include RNG outputs predicted by the instrumented reference (constant-time-test mode) to drive rare key-generation events. Kernels AND the whole pipeline are additionally run under memcheck with their secret inputs marked undefined (secret taint at machine-code level; the only allowed reporting site is bit_unpack's constant-outcome range check inside expand_mask); thorough adds opt-levels 1 and s and callgrind profile equality for the pipeline.",
-        design_ref="5/C14, 2.6", note="Trusted base: LLVM's sancov pass inserts a callback on every edge, load and store of the allow-listed crates (fips204, the driver, sha3, keccak, digest, block-buffer, zeroize, rand_core); memcpy intrinsics are not traced; valgrind's definedness tracking. Micro-architectural timing is out of scope, as for the property. Finite set of inputs."),
+        text="dudect_keygen_sign_with_rng and each secret-handling kernel (via verif_hooks) are run in SanitizerCoverage-instrumented optimised builds; the complete edge sequence and load/store address sequence are hashed per run and must be identical for every RNG output / in-domain input (first divergence is located and symbolised when not). The pipeline inputs include RNG outputs predicted by the instrumented reference (constant-time-test mode) to drive rare key-generation events. Kernels AND the whole pipeline are additionally run under memcheck with their secret inputs marked undefined (secret taint at machine-code level; the only allowed reporting site is bit_unpack's constant-outcome range check inside expand_mask); the machine-level stages run on the harness build and on builds reproducing the crate's own dev / release / bench profiles (opt-level, LTO, codegen units), reports being attributed to crate source functions through debug-info lines; thorough adds opt-levels 1 and s for the coverage traces and callgrind per-instruction / per-branch profile equality of the pipeline, localised to source lines. Known finding F6 (release profile, ML-DSA-44, decompose compiled to a jump) is reported as KNOWN-FINDING.",
+        design_ref="5/C14, 2.6", note="Trusted base: LLVM's sancov pass inserts a callback on every edge, load and store of the allow-listed crates (fips204, the driver, sha3, keccak, digest, block-buffer, zeroize, rand_core); memcpy intrinsics are not traced; valgrind's definedness tracking. Micro-architectural timing (incl. variable-latency instructions) is out of scope, as for the property. Machine-level verdicts hold for this compiler and the profiles built. Finite set of inputs."),
     "C15": dict(
         technique="runtime monitoring by exhaustive domain sweeps through verif_hooks against big-integer definitions",
         text="Each scalar function is evaluated on its whole input domain (2^23-2^32 points; thorough is exhaustive: 3.4e11 evaluations; quick sweeps the 2^23/2^24 domains fully and the 2^32 domains at a seeded stride plus boundary windows) and compared with i64/i128 definitions; the checked build replays a strided subset so the crate's own range assertions monitor the same inputs.",
